@@ -229,9 +229,26 @@ def strategy(n):
     inter = sh.call_strategy(moves=False, extras=False)
     rep = st.just({"op": "repeat"})
     item = st.one_of(valid, inter, inter, rep, poison_strategy(), poison_strategy(), setup_strategy().filter(bool).map(lambda l: l[0]))
+    # limits tightened while the head is parked outside them on one axis, then a
+    # command that does not mention that axis: it still targets a point outside
+    small = st.integers(-16, 16).map(lambda k: k / 8.0)
+    parked = st.tuples(st.integers(0, 2), st.integers(1, 2), st.booleans(),
+                       st.sampled_from(["move", "rapid", "move_absolute", "rapid_absolute",
+                                        "move_absolute", "rapid_absolute"]),
+                       small, st.booleans()).map(
+        lambda t: [{"op": "box_excluding_position", "axis": t[0], "gap": 2.0, "w": 30.0,
+                    "below": t[2]}]
+        + ([C("set_distance_mode", "relative")] if t[5] else [])
+        + [dict(C(t[3], F=600.0, **{"xyz"[(t[0] + t[1]) % 3]: t[4]}),
+                _poison="late:unmentioned_axis_parked_outside_box")])
+    one = item.map(lambda c: [c])
     return st.fixed_dictionaries({
         "setup": setup_strategy(),
-        "calls": st.lists(item, min_size=1, max_size=n)})
+        # (one_of() flattens nested alternatives and picks uniformly among all
+        # leaves: an explicit draw gives the pair a real weight of 1 in 8)
+        "calls": st.lists(st.integers(0, 7).flatmap(lambda k: parked if k == 0 else one),
+                          min_size=1, max_size=n).map(
+            lambda ll: [c for l in ll for c in l])})
 
 
 def strip(call):
